@@ -357,6 +357,32 @@ func runCLI(args ...string) (string, error) {
 	return buf.String(), err
 }
 
+// cliOnNonDatabases: the inspection commands open their argument read-only; pointed at an empty file or at junk
+// they may fail in any way, but the file must stay byte-identical.
+func (ls locksim) cliOnNonDatabases(dir string, ps int, fail func(string, string, ...any), out *Outcome) {
+	junk := make([]byte, 3*ps)
+	for i := range junk {
+		junk[i] = byte(i*11 + 5)
+	}
+	for _, cs := range []struct {
+		name string
+		data []byte
+	}{{"an empty file", nil}, {"three pages of junk", junk}} {
+		p := filepath.Join(dir, "notadb-cli")
+		for _, a := range [][]string{{"check", p}, {"dump", p, "0"}, {"page", p, "0"}, {"pages", p}, {"buckets", p}, {"stats", p}, {"inspect", p}, {"info", p}, {"keys", p, "b"}, {"get", p, "b", "k"}} {
+			if err := os.WriteFile(p, cs.data, 0600); err != nil {
+				return
+			}
+			_, err := runCLI(a...)
+			out.probe("cli-on-a-non-database", 1)
+			if got, rerr := os.ReadFile(p); rerr == nil && !bytes.Equal(got, cs.data) {
+				fail("cli-changed-file", "bbolt %s on %s (err=%v) changed the file: %d bytes before, %d bytes after", a[0], cs.name, err, len(cs.data), len(got))
+			}
+		}
+		os.Remove(p)
+	}
+}
+
 func (ls locksim) runReadOnly(c *Case, dir string, out *Outcome) {
 	path := filepath.Join(dir, "rodb")
 	os.Remove(path)
@@ -494,6 +520,7 @@ func (ls locksim) runReadOnly(c *Case, dir string, out *Outcome) {
 	ls.failedOpens(dir, cfg.PageSize, fail, out)
 	// CLI inspection commands
 	sim.Uninstall()
+	ls.cliOnNonDatabases(dir, cfg.PageSize, fail, out)
 	keysArgs := []string{"keys", path}
 	getArgs := []string{"get", path}
 	var bname, kname string
@@ -826,14 +853,24 @@ func (ls locksim) failedOpens(dir string, ps int, fail func(string, string, ...a
 	cases := []struct {
 		name string
 		data []byte
-	}{{"100 bytes of junk", junk(100)}, {"1500 bytes of junk", junk(1500)}, {"three pages of junk", junk(3 * ps)}}
+	}{{"100 bytes of junk", junk(100)}, {"1500 bytes of junk", junk(1500)}, {"three pages of junk", junk(3 * ps)}, {"an empty file", []byte{}}}
 	for ci, cs := range cases {
 		for _, ro := range []bool{true, false} {
+			if len(cs.data) == 0 && !ro {
+				continue // a read-write open of an empty file initialises it: legitimate
+			}
 			p := filepath.Join(dir, fmt.Sprintf("notadb-%d-%v", ci, ro))
 			if err := os.WriteFile(p, cs.data, 0600); err != nil {
 				continue
 			}
-			db, err := bolt.Open(p, 0600, &bolt.Options{ReadOnly: ro, Timeout: 20 * time.Millisecond})
+			db, err := bolt.Open(p, 0600, &bolt.Options{ReadOnly: ro, Timeout: 20 * time.Millisecond, PageSize: []int{0, ps}[ci%2]})
+			if ro {
+				// whatever a read-only open answers, it never changes a byte of the file
+				if got, rerr := os.ReadFile(p); rerr == nil && !bytes.Equal(got, cs.data) {
+					fail("read-only-open-changed-file", "Open(readOnly=true) of %s (err=%v) changed the file: %d bytes before, %d bytes after", cs.name, err, len(cs.data), len(got))
+				}
+				out.probe("read-only-open-of-a-non-database", 1)
+			}
 			if err == nil {
 				fail("opened-invalid", "Open(readOnly=%v) of %s succeeded", ro, cs.name)
 				_ = db.Close()
